@@ -7,6 +7,7 @@ RULE_TEXT = ("C13-G: obligations over the crate graph and crate attributes of th
              "the loaded crates, every MIR call and every local type names only crates of that graph, build succeeds. "
              "C13-S: with feature std, bodies shared with the no_std build call nothing in alloc/std and "
              "hold no alloc-typed local; allocation is confined to bodies that exist only under the std feature. "
+             "Under std only impls for growable types (Vec<u8>, String) touch the heap - any other std-only body that does (a blocking entry point, a wrapper) is reported. "
              "C13-W: a #![no_std] crate with the witness interfaces builds and loads neither alloc nor std. "
              "C13-Q: the identifiers the macro crate's quote! fragments emit (read from its HIR, token by token) name no "
              "alloc/std item (Vec, String, Box, format!, .to_string() ... or a path rooted in std/alloc).")
@@ -109,6 +110,18 @@ def run(ck):
                     std_only.add(root)
                 else:
                     shared_bad.append((m["def"], uses[:3]))
+        # what may allocate under `std` is the writer into a growable buffer (`impl Write for Vec<u8>`): it is not one of the
+        # "fixed-capacity buffer" paths the property speaks of. Any other std-only body that allocates - a blocking
+        # entry point, a convenience wrapper - allocates while parsing/dispatching/formatting into a fixed buffer.
+        stray = []
+        for root in sorted(std_only):
+            b = std.body(root)
+            # impls *for* a growable type (`impl Write for Vec<u8>`, `impl Response for String`): the caller chose the heap
+            is_growable_writer = b is not None and ((b.get("self_ty") or "").startswith("alloc::") or (b.get("self_ty") or "").startswith("std::"))
+            if not is_growable_writer:
+                stray.append(root)
+        ck.judge(not stray, "C13-S", "std:allocating-bodies", "under feature std only impls for growable types (Vec<u8>, String) touch the heap: %s" % sorted(std_only),
+                 "under feature std, bodies other than the writer into a growable buffer allocate: %s (heap allocation on a path that serves fixed-capacity buffers too)" % stray[:4])
         ck.judge(not shared_bad, "C13-S", "std:confinement", "with feature std: %d call sites; allocation only in std-only bodies %s" % (n, sorted(std_only)),
                  "bodies that also exist in the no_std build use alloc under feature std: %s" % shared_bad[:5])
         ck.judge(std.facts["no_std"] is False, "C13-S", "std:cfg-sanity", "feature std build is not no_std (positive control for the attribute reader)",
